@@ -646,6 +646,34 @@ func (env *SpecEnv) call(x *SExpr) (sval, error) {
 			return sval{}, err
 		}
 		return sval{app(SInt, "rune_count", s.t), types.Typ[types.Int]}, nil
+	case "itoa":
+		v, err := env.eval(args[0])
+		if err != nil {
+			return sval{}, err
+		}
+		e.U.declareFun("itoa", []Sort{SInt}, SStr)
+		return sval{app(SStr, "itoa", env.f.asInt(v.t)), types.Typ[types.String]}, nil
+	case "atoi":
+		v, err := env.eval(args[0])
+		if err != nil {
+			return sval{}, err
+		}
+		e.U.declareFun("atoi", []Sort{SStr}, SInt)
+		return sval{app(SInt, "atoi", v.t), types.Typ[types.Int]}, nil
+	case "store":
+		a, err := env.eval(args[0])
+		if err != nil {
+			return sval{}, err
+		}
+		k, err := env.eval(args[1])
+		if err != nil {
+			return sval{}, err
+		}
+		v, err := env.eval(args[2])
+		if err != nil {
+			return sval{}, err
+		}
+		return sval{store(a.t, k.t, v.t), a.typ}, nil
 	case "nsub":
 		// number of capture groups of a compiled regular expression
 		v, err := env.eval(args[0])
@@ -704,6 +732,27 @@ func (env *SpecEnv) callNamed(name string, args []*SExpr) (sval, error) {
 	e := env.f.e
 	sf := e.P.Specs.SpecFuncs[name]
 	if sf == nil {
+		// struct constructor: T(f1, f2, ...)
+		if t, err := env.resolveType(name); err == nil {
+			if st, ok := t.Underlying().(*types.Struct); ok && st.NumFields() == len(args) {
+				d := e.U.structDT(t)
+				var ts []Term
+				for i, a := range args {
+					v, err := env.eval(a)
+					if err != nil {
+						return sval{}, err
+					}
+					if v.t.Sort == "nil" {
+						v.t = e.U.zeroOf(st.Field(i).Type(), d.Sorts[i])
+					}
+					if v.t.Sort != d.Sorts[i] {
+						return sval{}, fmt.Errorf("%s: field %d has sort %s, want %s", name, i, v.t.Sort, d.Sorts[i])
+					}
+					ts = append(ts, v.t)
+				}
+				return sval{mk(Sort(d.Name), d.Ctor, ts...), t}, nil
+			}
+		}
 		return sval{}, fmt.Errorf("unknown function %s", name)
 	}
 	if len(args) != len(sf.Params) {
@@ -766,7 +815,18 @@ func (env *SpecEnv) callNamed(name string, args []*SExpr) (sval, error) {
 // resolverAt builds a name resolver for the top of block blk (phis bound
 // through phiEnv when given), searching dominating definitions.
 func (f *Frame) resolverAt(blk *ssa.BasicBlock, phiEnv map[*ssa.Phi]Term, st *State) func(string) (Term, types.Type, bool) {
+	return f.resolverAtPoint(blk, -1, phiEnv, st)
+}
+
+// resolverAtPoint resolves source names just before instruction idx of blk
+// (idx < 0: at the top of the block, after its phis).
+func (f *Frame) resolverAtPoint(blk *ssa.BasicBlock, idx int, phiEnv map[*ssa.Phi]Term, st *State) func(string) (Term, types.Type, bool) {
 	return func(name string) (Term, types.Type, bool) {
+		if idx >= 0 {
+			if t, typ, ok := f.lastDefBefore(blk, idx, name, st); ok {
+				return t, typ, true
+			}
+		}
 		want := name
 		ord := 1
 		if k := strings.Index(name, "#"); k > 0 {
@@ -831,7 +891,11 @@ func (f *Frame) resolverAt(blk *ssa.BasicBlock, phiEnv map[*ssa.Phi]Term, st *St
 
 // lastDef finds the value of source variable name at the end of block b.
 func (f *Frame) lastDef(b *ssa.BasicBlock, name string, st *State) (Term, types.Type, bool) {
-	for i := len(b.Instrs) - 1; i >= 0; i-- {
+	return f.lastDefBefore(b, len(b.Instrs), name, st)
+}
+
+func (f *Frame) lastDefBefore(b *ssa.BasicBlock, upto int, name string, st *State) (Term, types.Type, bool) {
+	for i := upto - 1; i >= 0; i-- {
 		switch x := b.Instrs[i].(type) {
 		case *ssa.DebugRef:
 			if x.Object() == nil || x.Object().Name() != name {
